@@ -291,6 +291,51 @@ pub fn run_sim(spec: &SimSpec, progress: bool, handwritten: bool) -> String {
     }
 }
 
+/// The documented meaning of the runners, spelled out: one generator seeded with `seed_from_u64(seed)`,
+/// and for every step `agents.update(env, rng); env.step(rng)` — nothing else. The real runner must
+/// produce exactly this run (C09: "all randomness is drawn from the seeded generator handed to the
+/// agents and the environment").
+pub fn run_sim_manual(spec: &SimSpec) -> String {
+    use bourse_de::agents::{AgentSet, MarketAgentSet};
+    use rand::SeedableRng;
+    use rand_xoshiro::Xoroshiro128StarStar;
+    let r = std::panic::catch_unwind(|| {
+        let mut rng = Xoroshiro128StarStar::seed_from_u64(spec.seed);
+        if !spec.multi {
+            let mut env: Env = Env::new(spec.t0, spec.ticks[0], spec.step, spec.trading);
+            let mut set = build_set(&spec.agents);
+            for _ in 0..spec.steps {
+                set.update(&mut env, &mut rng);
+                env.step(&mut rng);
+            }
+            env_obs_line(&EnvW::<10>(env, spec.step), spec.trading)
+        } else {
+            macro_rules! go {
+                ($a:literal) => {{
+                    let ticks: [u32; $a] = std::array::from_fn(|i| spec.ticks[i]);
+                    let mut env: MarketEnv<$a, 10> = MarketEnv::new(spec.t0, ticks, spec.step, spec.trading);
+                    let mut set = build_mset(&spec.agents);
+                    for _ in 0..spec.steps {
+                        set.update(&mut env, &mut rng);
+                        env.step(&mut rng);
+                    }
+                    env_obs_line(&MEnvW::<$a, 10>(env, spec.step), spec.trading)
+                }};
+            }
+            match spec.ticks.len() {
+                1 => go!(1),
+                2 => go!(2),
+                3 => go!(3),
+                _ => panic!("unsupported asset count"),
+            }
+        }
+    });
+    match r {
+        Ok(s) => s,
+        Err(_) => "r=PANIC sh=ok perm=- rngck=1 n=0".to_string(),
+    }
+}
+
 pub fn fnv64(s: &str) -> u64 {
     let mut h: u64 = 0xcbf29ce484222325;
     for b in s.as_bytes() {
